@@ -14,7 +14,7 @@ impl Prop for C05 {
         "seeded key quadruples (S, S', R, R' pairwise distinct): files built by the real encryptor with a claimed sender public key that does not match the private key used; files built by the independent Lean encryptor with every combination of \
          (private key used, public key claimed, recipient addressed); handshake fields (ephemeral / encrypted static / encrypted payload) exchanged between two authentic files to the same recipient; decryption under 3 wrong recipient keys; \
          the 7 low-order X25519 points and their high-bit aliases as recipient key (encryption must be refused with not a byte written) and as ephemeral key inside a handshake (decryption must fail). \
-         compared with the model: accept/reject, reported sender. non-trivial = distinct (scenario, seed)".into()
+         sender naming: keyring lookups with keys that are near an entry's key (characters swapped, reversed, sorted, case-swapped, one character changed, interleaved) must find nothing, and files from keys outside the keyring are reported as unknown by the real binary. compared with the model: accept/reject, reported sender. non-trivial = distinct (scenario, seed)".into()
     }
     fn cases(&self, tier: &str, seed: u64) -> Vec<Case> {
         let th = tier == "thorough";
@@ -24,6 +24,8 @@ impl Prop for C05 {
         for sc in ["honest", "claim-other", "claim-recipient", "model-claim-other", "wrong-recipient", "swap-ephemeral", "swap-static", "swap-payload", "swap-all-header", "recipient-pub-mismatch"] {
             for _ in 0..n { v.push(case(&[("sc", sc.into()), ("seed", rng.next().to_string())])); }
         }
+        for _ in 0..(if th { 400 } else { 60 }) { v.push(case(&[("sc", "name-lookup".into()), ("seed", rng.next().to_string())])); }
+        for _ in 0..(if th { 12 } else { 3 }) { v.push(case(&[("sc", "cli-unknown-sender".into()), ("seed", rng.next().to_string())])); }
         for (i, _) in LOW_ORDER.iter().enumerate() { for alias in ["plain", "highbit"] { for role in ["recipient", "ephemeral"] {
             v.push(case(&[("sc", "loworder".into()), ("idx", i.to_string()), ("alias", alias.into()), ("role", role.into()), ("seed", rng.next().to_string())]));
         } } }
@@ -49,6 +51,43 @@ impl Prop for C05 {
             else if d.res != imp::canon(&md.res) || d.sender != md.sender { o.disagreement = Some(format!("{}: impl {} model {}", label, d.res, md.res)); }
         };
         match sc {
+            "name-lookup" => {
+                // the name printed after decryption is found by looking the authenticated key up in the keyring: only an entry with EXACTLY
+                // that public key may answer. Probe with keys that are "close" to an entry's key in ways sloppy comparisons confuse.
+                use crate::keyring::{EncodedPk, Keyring};
+                let enc = |k: &[u8]| crate::props::c17::enc_pk(k);
+                let (ka, kb) = (enc(&spk), enc(&rpk));
+                let text = format!("[Key]\nName = alice\nPublicKey = {}\n\n[Key]\nName = bob\nPublicKey = {}\n", ka, kb);
+                let kr = Keyring::new(&text).expect("keyring");
+                let mut probes: Vec<(String, String)> = vec![("fresh key".into(), enc(&s2pk)), ("fresh key".into(), enc(&r2pk))];
+                let a: Vec<char> = ka.chars().collect();
+                for _ in 0..6 { let (i, j) = (rng.below(48), rng.below(48)); if a[i] != a[j] { let mut b = a.clone(); b.swap(i, j); probes.push(("two characters swapped".into(), b.into_iter().collect())); } }
+                { let mut b = a.clone(); b.reverse(); probes.push(("reversed".into(), b.into_iter().collect())); }
+                { let mut b = a.clone(); b.sort(); probes.push(("sorted".into(), b.into_iter().collect())); }
+                { let b: String = a.iter().map(|ch| if ch.is_ascii_lowercase() { ch.to_ascii_uppercase() } else { ch.to_ascii_lowercase() }).collect(); probes.push(("case swapped".into(), b)); }
+                { let mut b = a.clone(); let i = rng.below(48); b[i] = if b[i] == 'A' { 'B' } else { 'A' }; probes.push(("one character changed".into(), b.into_iter().collect())); }
+                { let b: String = a.iter().zip(kb.chars()).enumerate().map(|(i, (x, y))| if i % 2 == 0 { *x } else { y }).collect(); probes.push(("interleaved with another entry".into(), b)); }
+                o.impl_obs = format!("{} probes", probes.len()); o.model_obs = "exact match only".into();
+                for (what, pstr) in probes {
+                    if pstr == ka || pstr == kb { continue; }
+                    let Ok(e) = EncodedPk::try_from(pstr.as_str()) else { continue };
+                    let got = kr.get_name_from_key(&e);
+                    let mr = m.ask(&format!("parse_keyring {}", hexd(text.as_bytes()))); let _ = mr; o.validated += 1;
+                    if let Some(n) = got { o.oracle_fail = Some(("sender-named-only-on-exact-key-match".into(), format!("get_name_from_key answers {:?} for a key that is not in the keyring ({}: {})", n, what, pstr))); return o; }
+                }
+                if kr.get_name_from_key(&EncodedPk::try_from(ka.as_str()).unwrap()).as_deref() != Some("alice") { o.oracle_fail = Some(("sender-named".into(), "an entry's own key is not found".into())); }
+            }
+            "cli-unknown-sender" => {
+                // end to end through the binary: a file from a key that is NOT in the recipient's keyring must be reported as unknown, with its encoding
+                use crate::cli::*;
+                let fx = fixtures();
+                let f = imp::key_encrypt(&s, &spk, &fx.bob.pk, None, None, &p, &NOSCRIPT).out;
+                let world = World { files: vec![("in.bin".into(), f), ("kr.txt".into(), keyring(&[(&fx.alice, true), (&fx.bob, true), (&fx.carol, false)]).into_bytes())], env: vec![("KESTREL_PASSWORD".into(), fx.bob.pw.into())], stdin: vec![] };
+                let obs = run_kestrel(&world, &sv(&["decrypt", "in.bin", "-t", "bob", "-o", "out.bin", "-k", "kr.txt", "--env-pass"]));
+                let want = Some(Err(crate::props::c17::enc_pk(&spk)));
+                o.impl_obs = format!("exit={:?} sender={:?}", obs.exit, obs.sender()); o.model_obs = format!("{:?}", want); o.validated += 1;
+                if obs.exit != Some(0) || obs.sender() != want { o.oracle_fail = Some(("unknown-sender-reported-as-unknown".into(), format!("a file from a key outside the keyring: exit {:?}, sender line {:?}, expected {:?}", obs.exit, obs.sender(), want))); }
+            }
             "honest" => {
                 let f = imp::key_encrypt(&s, &spk, &rpk, None, None, &p, &NOSCRIPT).out;
                 let d = imp::key_decrypt(&r, &rpk, &f, &NOSCRIPT); let md = mdec(m, &r, &rpk, &f);
